@@ -195,7 +195,18 @@ pub fn internal_problem(events: &[serde_json::Value]) -> Option<String> {
 }
 
 pub fn budget_exceeded(v: &Verdict) -> bool {
-    matches!(v, Verdict::Err(e) if e.contains("refsolver-budget") || e.contains("refsolver-internal"))
+    matches!(v, Verdict::Err(e) if e.contains("refsolver-budget") || e.contains("refsolver-internal") || e.contains("refsolver-badmodel"))
+}
+
+/// a run without verdict because of the reference solver itself: over its budget (the case is inconclusive) or the
+/// backend handed out a "model" that does not satisfy the query it answered sat to (seen with z3 4.8.12 on a constant
+/// array with a symbolic element: the run is skipped and counted, the reference solver never passes such values on)
+pub fn backend_trouble(sh: &mut crate::runner::Shard, v: &Verdict, cfg_txt: &str) {
+    if matches!(v, Verdict::Err(e) if e.contains("refsolver-badmodel")) {
+        sh.count("runs_skipped_because_the_backend_model_was_not_a_model", 1);
+    } else {
+        sh.inconclusive(format!("reference solver budget exceeded ({cfg_txt})"));
+    }
 }
 
 pub fn val_of_value(v: &Value) -> Val {
